@@ -132,7 +132,10 @@ def explicit_cases():
     ]
 
 
-def _grid_cases(lo, hi, mx_values, isils=(-1, 0, 2), modes=range(-1, 9)):
+BIG_MODES = (255, 256, 257, 258, 260, 262, 264, 512, 1024, 65536, -256, -250, 2**31, 2**40 + 2)
+
+
+def _grid_cases(lo, hi, mx_values, isils=(-1, 0, 2), modes=tuple(range(-1, 9)) + BIG_MODES):
     rng = range(lo, hi + 1)
     for mx in mx_values:
         for mn in rng:
@@ -165,6 +168,11 @@ def extra_coverage(tier):
     k = hi - lo + 1
     return {
         "exhaustive_part": f"all patterns of length 0..{b['L']} x all accepted (min,max,sil,mode), max_length<={b['M']}, inits {list(INITS)}",
-        "constructor_grid": f"min,max,sil,init_min in [{lo},{hi}] x init_max_silence in (-1,0,2) x mode in [-1,8] = {k**4 * 3 * 10} tuples, enumerated completely",
+        "constructor_grid": f"min,max,sil,init_min in [{lo},{hi}] x init_max_silence in (-1,0,2) x mode in [-1,8] and {len(BIG_MODES)} large values (255..2**40) = {k**4 * 3 * (10 + len(BIG_MODES))} tuples, enumerated completely",
         "max_stream_len": b["maxlen"], "max_max_length": b["maxmax"],
     }
+
+
+def optimized_cases():
+    for n in range(0, 8):
+        yield from tokjobs.exh_cases(n, 0, 1 << n, 3, INITS)
